@@ -34,6 +34,11 @@ def gen_spec(rng):
     base_in_q = has_q and rng.random() < 0.7
     # a package-level import in P's own definition that classes of P rely on (part of what a placeholder lacks)
     spec["p_import"] = bool(base_in_q and rng.random() < 0.4)
+    if base_in_q and rng.random() < 0.2:
+        # P's own declaration consists of an import clause and nested classes only: nothing but the import tells it
+        # from a `within` placeholder
+        spec["p_import"] = True
+        spec["p_consts"] = {}
     spec["classes"].append({"name": "T", "where": "P", "tpl": "type"})
     spec["classes"].append({"name": "Base", "where": "Q" if base_in_q else "P", "tpl": "base"})
     spec["classes"].append({"name": "Mid", "where": "P", "tpl": "mid"})
@@ -74,6 +79,11 @@ def render_class(spec, c, indent):
             if fq[(site + 5) % len(fq)] or spec.get("const_fq"):
                 return "%s.Q.%s" % (P, n)
             return n if me_in_q else "Q." + n
+        if not pc:
+            if not qc:
+                return str(L[site % len(L)])
+            n = qc[site % len(qc)]
+            return "%s.Q.%s" % (P, n) if (fq[(site + 5) % len(fq)] or spec.get("const_fq") or not me_in_q) else n
         n = pc[site % len(pc)]
         if fq[(site + 7) % len(fq)] or spec.get("const_fq"):
             return "%s.%s" % (P, n)
@@ -218,7 +228,7 @@ class Engine:
                 assign["files"][n] = rng.randint(1, n_parts)
         if not assign["files"] and not (spec["has_q"] and assign["q_own"]):
             assign["files"][names[-1]] = 1
-        return {"kind": config, "spec": spec, "assign": assign, "layout": rng.choice(["flat", "nested"]),
+        return {"kind": config, "spec": spec, "assign": assign, "layout": rng.choice(["flat", "nested", "package_mo"]),
                 "order_seed": rng.randrange(1 << 30), "perm": None}
 
     def shrink_candidates(self, plan):
@@ -262,6 +272,13 @@ class Engine:
                 out[c] = ("ok", canon.tree_digest(T.flatten(pickle.loads(tree_pickle), A.ComponentRef.from_string(c)), SKIP))
             except Exception as e:
                 out[c] = ("fail", type(e).__name__)
+        return out
+
+    @staticmethod
+    def var_names(m):
+        out = set()
+        for cat in ("states", "der_states", "alg_states", "inputs", "parameters", "constants"):
+            out.update("%s:%s" % (cat, v.symbol.name()) for v in getattr(m, cat))
         return out
 
     @staticmethod
@@ -345,6 +362,18 @@ class Engine:
         paths = []
         for k, (rel, txt, _own) in enumerate(files):
             sub = os.path.join(mdir, "d%d" % (k % 2)) if plan["layout"] == "nested" and k else mdir
+            if plan["layout"] == "package_mo":
+                # the standard Modelica directory layout: every package directory has its own package.mo, so the same
+                # base name occurs in several directories
+                Pn = spec["P"]
+                if _own:
+                    sub, rel = os.path.join(mdir, Pn), "package.mo"
+                elif rel.startswith("Q_of_"):
+                    sub, rel = os.path.join(mdir, Pn, "Q"), "package.mo"
+                elif rel.endswith("_Q.mo"):
+                    sub, rel = os.path.join(mdir, Pn, "Q"), rel.split("_")[0] + ".mo"
+                else:
+                    sub, rel = os.path.join(mdir, Pn), rel.split("_")[0] + ".mo"
             os.makedirs(sub, exist_ok=True)
             p = os.path.join(sub, rel)
             with fsim.REAL_OPEN(p, "w") as f:
@@ -364,6 +393,22 @@ class Engine:
         if plan.get("perm"):
             all_orders = [tuple(plan["perm"])]
         results = {}
+        # what the API makes of the same library in ONE file: a class that compiles from it must compile from the split
+        # library in every directory order, with the same set of variables (their order follows per-file declaration
+        # counters and is not compared with the single file)
+        import pymoca.backends.casadi.api as api
+
+        sdir = os.path.join(sandbox, "single")
+        os.makedirs(sdir)
+        with fsim.REAL_OPEN(os.path.join(sdir, spec["P"] + ".mo"), "w") as f:
+            f.write(render_single(spec))
+        api_ref = {}
+        for c in targets[:2]:
+            try:
+                m = api.transfer_model(sdir, c, {"replace_constant_values": True})
+                api_ref[c] = ("ok", self.var_names(m))
+            except Exception as e:
+                api_ref[c] = ("fail", type(e).__name__)
         for order in all_orders:
             sub_orders = {d: rng.sample(v, len(v)) for d, v in names_by_dir.items() if d != top}
 
@@ -401,8 +446,6 @@ class Engine:
                         break
                 if viol is None:
                     # CasADi API
-                    import pymoca.backends.casadi.api as api
-
                     for c in targets[:2]:
                         try:
                             m = api.transfer_model(mdir, c, {"replace_constant_values": True})
@@ -412,6 +455,13 @@ class Engine:
                         except Exception as e:
                             out = ("fail", type(e).__name__)
                         log.add(0, 0, "api", "%s %s %s" % (list(order), c, out[0]))
+                        if api_ref[c][0] == "ok" and (out[0] != "ok" or self.var_names(out[1]) != api_ref[c][1]):
+                            viol = ("exception" if out[0] != "ok" else "wrong_result", "api:_compile_model",
+                                    ["api_walk", pc, "class_fails" if out[0] != "ok" else "different_variables"],
+                                    "transfer_model(%s) with directory order %s %s; from the single-file library it compiles%s" % (
+                                        c, list(order), "raises %s" % out[1] if out[0] != "ok" else "has other variables",
+                                        "" if out[0] != "ok" else " with %s" % (sorted(api_ref[c][1]),)))
+                            break
                         prev = results.get(c)
                         if prev is None:
                             results[c] = (order, out)
